@@ -273,7 +273,7 @@ fn convert_to_nickel(f: ExportFormat, text: &str) -> Result<String, String> {
     let ast: Result<Ast<'_>, String> = match f {
         ExportFormat::Json => serialize::yaml::load_json(&alloc, text, Some(file_id)).map_err(|e| format!("load_json:{}", short(&format!("{e:?}")))),
         ExportFormat::Yaml => serialize::yaml::load_yaml(&alloc, text, Some(file_id), Listify::Auto).map_err(|e| format!("load_yaml:{}", short(&format!("{e:?}")))),
-        ExportFormat::Toml => serialize::toml_deser::ast_from_str(&alloc, text, file_id).map_err(|e| format!("toml_edit:{}", short(&e.to_string()))),
+        ExportFormat::Toml => serialize::toml_deser::ast_from_str(&alloc, text, file_id).map_err(|e| format!("toml_edit:{}", short(&format!("{e:?}")))),
         _ => Err("format".into()),
     };
     Ok(ast?.to_string())
@@ -556,7 +556,7 @@ fn case_num(n: Number) -> String {
             let fid = files.add("<t>", t.as_str());
             out.push(format!(
                 "MI={}",
-                show_num_result(field_x(serialize::toml_deser::from_str(&mut pt, &t, fid).map_err(|e| short(&e.to_string()))))
+                show_num_result(field_x(serialize::toml_deser::from_str(&mut pt, &t, fid).map_err(|e| short(&format!("{e:?}")))))
             ));
         }
         Err(e) => out.push(format!("TT=!{e}")),
